@@ -74,7 +74,7 @@ theorem queryNodeSubnet_quiet (s : State) (node : String) :
       · exact ⟨api_quiet s, rfl⟩
       · split
         · exact ⟨api_quiet s, rfl⟩
-        · exact ⟨⟨⟨rfl, rfl, rfl, rfl, rfl, rfl, rfl, rfl, rfl, rfl, rfl, rfl, rfl, rfl, by simp [State.api]⟩, rfl, rfl, rfl⟩, rfl⟩
+        · exact ⟨⟨⟨rfl, rfl, rfl, rfl, rfl, rfl, rfl, rfl, rfl, rfl, rfl, rfl, rfl, rfl, api_calls_le s⟩, rfl, rfl, rfl⟩, rfl⟩
 
 theorem allocateInSubnet_plog (s : State) (key : Key) (n : Subnet) (a : Attr) (ch : Option IP) :
     (allocateInSubnet s key n a ch).1.plog = s.plog := by
@@ -128,7 +128,8 @@ theorem allocateInSubnetsAndRanges_plog (s : State) (key : Key) (n : Subnet) (rs
 
 /-- what the allocation step of Bind guarantees -/
 structure BindAllocPost (s : State) (pod : Pod) (infos : List (Option IP)) (res : State × Res × List (Option IP)) : Prop where
-  coherent : Coherent res.1
+  coherent : s.crashMode = false ∨ res.2.1 = .ok → Coherent res.1
+  persist : ∀ j r0, Tbl.get s.alloc j = some r0 → Tbl.get res.1.store j = Tbl.get s.store j
   chg : Chg isFree (hasKeyUid (keyOf pod) pod.uid) s res.1
   plog : res.1.plog = s.plog
   ips : res.2.1 = .ok → ∀ ip, ip ∈ res.2.2.filterMap id →
@@ -144,17 +145,34 @@ theorem bindAlloc_spec (s : State) (pod : Pod) (node : String) (policy : Nat) (i
   · rename_i hcond
     have qq := queryNodeSubnet_quiet s node
     split
-    · exact ⟨qq.1.coherent h, qq.1.chg, qq.2, fun hr => by cases hr⟩
+    · exact ⟨fun _ => qq.1.coherent h, fun j _ _ => by rw [qq.1.store], qq.1.chg, qq.2, fun hr => by cases hr⟩
     · rename_i n _
       have hq := qq.1.coherent h
       have c := allocateInSubnetsAndRanges_chg (queryNodeSubnet s node).1 (keyOf pod) n (unfoundRanges infos pod.ranges)
         { policy := policy, node := node, uid := pod.uid } pick hq
-      have hc := allocateInSubnetsAndRanges_coherent (queryNodeSubnet s node).1 (keyOf pod) n (unfoundRanges infos pod.ranges)
+      have hqcm : (queryNodeSubnet s node).1.crashMode = s.crashMode := by
+        unfold queryNodeSubnet
+        split
+        · rfl
+        · dsimp only
+          split
+          · rfl
+          · split
+            · rfl
+            · split <;> rfl
+      have hc' := allocateInSubnetsAndRanges_coherent (queryNodeSubnet s node).1 (keyOf pod) n (unfoundRanges infos pod.ranges)
         { policy := policy, node := node, uid := pod.uid } pick hq
+      have hpers : ∀ j r0, Tbl.get s.alloc j = some r0 → Tbl.get (allocateInSubnetsAndRanges (queryNodeSubnet s node).1
+          (keyOf pod) n (unfoundRanges infos pod.ranges) { policy := policy, node := node, uid := pod.uid } pick).1.store j =
+          Tbl.get s.store j := by
+        intro j r0 hj
+        rw [allocateInSubnetsAndRanges_persist _ _ _ _ _ _ hq j r0 (by rw [qq.1.alloc]; exact hj), qq.1.store]
       have ctot : Chg isFree (hasKeyUid (keyOf pod) pod.uid) s
           (allocateInSubnetsAndRanges (queryNodeSubnet s node).1 (keyOf pod) n (unfoundRanges infos pod.ranges)
             { policy := policy, node := node, uid := pod.uid } pick).1 := (qq.1.chg).trans c
-      refine ⟨hc, ctot, (allocateInSubnetsAndRanges_plog _ _ _ _ _ _).trans qq.2, fun _ ip hip => ?_⟩
+      refine ⟨fun hcm => hc' (by rw [hqcm]; exact hcm), hpers, ctot, (allocateInSubnetsAndRanges_plog _ _ _ _ _ _).trans qq.2,
+        fun hok ip hip => ?_⟩
+      have hc := hc' (Or.inr hok)
       -- an address the second query returns was returned by the first one, or has just been allocated
       have hk2 := byKeyAndRanges_mem _ hc.allocNodup (keyOf pod) pod.ranges ip hip
       rcases ctot.recs ip with e | ⟨_, hnew⟩
@@ -179,7 +197,7 @@ theorem bindAlloc_spec (s : State) (pod : Pod) (node : String) (policy : Nat) (i
             unfold unfoundRanges; rw [this]; simp
           simp [hu, hne] at hcond
       · exact Or.inr hnew
-  · exact ⟨h, Chg.refl _ _ s, rfl, fun _ ip hip => Or.inl hip⟩
+  · exact ⟨fun _ => h, fun _ _ _ => rfl, Chg.refl _ _ s, rfl, fun _ ip hip => Or.inl hip⟩
 
 /-! ### the assign / updateAttr loop -/
 
@@ -392,26 +410,48 @@ theorem bindCommit_spec (s : State) (pod : Pod) (ns name : String) (uid : Nat) (
         rw [q3.frame.vPods, hl] at hl'
         cases hl'; exact hu.symm
 
+/-- `bindCommitX` is `bindCommit`, or (dead process) just the counted call -/
+theorem bindCommitX_cases (s : State) (pod : Pod) (ns name : String) (uid : Nat) (node : String) (ips : List IP) :
+    bindCommitX s pod ns name uid node ips = (s.api.1, Out.err "crashed") ∨
+    bindCommitX s pod ns name uid node ips = bindCommit s pod ns name uid node ips := by
+  unfold bindCommitX
+  split
+  · exact Or.inl rfl
+  · exact Or.inr rfl
+
+theorem bindCommitX_eq (s : State) (pod : Pod) (ns name : String) (uid : Nat) (node : String) (ips : List IP)
+    (h : s.crashMode = false) : bindCommitX s pod ns name uid node ips = bindCommit s pod ns name uid node ips := by
+  unfold bindCommitX
+  simp [h]
+
+/-- Bind.  Without a crash plan the invariant is preserved; under ANY plan (crash included) the persistent part `PInv`
+    is: the only state in which memory and store may disagree is the one after an interrupted multi-address allocation,
+    and there the store differs from memory at previously unallocated addresses only. -/
 theorem bind_spec (s : State) (ns name : String) (uid : Nat) (node : String) (ch : Choice) (h : Inv s) (huid0 : uid ≠ 0) :
-    Inv (bind Facts.good s ns name uid node ch).1 ∧
+    PInv (bind Facts.good s ns name uid node ch).1 ∧
+    (s.crashMode = false → Inv (bind Facts.good s ns name uid node ch).1) ∧
       UnassignsWithin s (bind Facts.good s ns name uid node ch).1 (fun _ => False) := by
+  have base : PInv s ∧ (s.crashMode = false → Inv s) ∧ UnassignsWithin s s (fun _ => False) :=
+    ⟨h.toPInv, fun _ => h, UnassignsWithin.refl s _⟩
+  have ofInv : ∀ t, Inv t → UnassignsWithin s t (fun _ => False) →
+      PInv t ∧ (s.crashMode = false → Inv t) ∧ UnassignsWithin s t (fun _ => False) :=
+    fun t ht hl => ⟨ht.toPInv, fun _ => ht, hl⟩
   unfold bind
   split
-  · exact ⟨h, UnassignsWithin.refl s _⟩
+  · exact base
   · rename_i pod hl
     obtain ⟨lid, l0, llt, lwf, lsame⟩ := h.lister (ns, name) pod hl
     split
-    · exact ⟨h, UnassignsWithin.refl s _⟩
+    · exact base
     · split
-      · exact ⟨h, UnassignsWithin.refl s _⟩
-      · -- the lister guard did not fire: the lister's pod is the incarnation the scheduler binds
-        rename_i hguard1
+      · exact base
+      · rename_i hguard1
         have hluid : pod.uid = uid := by
           simp only [good_bindChecksListerUID, Bool.true_and, Bool.and_eq_true, bne_iff_ne, ne_eq, not_and,
             Decidable.not_not] at hguard1
           exact hguard1 ⟨huid0, l0⟩
         split
-        · exact ⟨h, UnassignsWithin.refl s _⟩
+        · exact base
         · rename_i infos hinf
           have hinfos : infos = byKeyAndRanges s (keyOf pod) pod.ranges ∨ (pod.ranges.isEmpty = true ∧ ¬ infos.isEmpty = true) := by
             unfold bindInfos at hinf
@@ -425,9 +465,8 @@ theorem bind_spec (s : State) (ns name : String) (uid : Nat) (node : String) (ch
               | some ip => rw [hpf] at hinf; cases hinf; simp
             · left; cases hinf; rfl
           split
-          · exact ⟨h, UnassignsWithin.refl s _⟩
-          · -- the whole-key UID guard did not fire: no record of another incarnation under the key
-            rename_i hguard2
+          · exact base
+          · rename_i hguard2
             have h2 : ∀ ip r, Tbl.get s.alloc ip = some r → r.key = keyOf pod → r.uid = 0 ∨ r.uid = pod.uid := by
               intro ip r hg hk
               simp only [good_bindChecksUID, Bool.true_and, bindGuardIPs, good_bindUidGuardCoversWholeKey, if_true,
@@ -438,7 +477,6 @@ theorem bind_spec (s : State) (ns name : String) (uid : Nat) (node : String) (ch
               by_cases h0 : r.uid = 0
               · exact Or.inl h0
               · exact Or.inr (this h0)
-            -- hence every live bound pod with this key has the lister pod's uid
             have huid : ∀ q, LiveBound s.pods q → keyOf q = keyOf pod → q.uid = pod.uid := by
               intro q hq hk
               obtain ⟨hd, hmem⟩ := List.exists_mem_of_ne_nil _ hq.2.2
@@ -451,14 +489,24 @@ theorem bind_spec (s : State) (ns name : String) (uid : Nat) (node : String) (ch
             have tA : Touched (keyOf pod) pod.uid s (bindAlloc s pod node
                 { policy := policyOf pod, node := node, uid := pod.uid } infos ch.pick).1 :=
               sp.chg.touched (fun o ho => Or.inl ho) (fun n hn => hn)
-            have hiA := h.step_of_touched sp.coherent tA huid
             split
-            · exact ⟨h, UnassignsWithin.refl s _⟩
-            · exact ⟨hiA, UnassignsWithin.of_plog_eq _ sp.plog⟩
+            · exact base
+            · -- the allocation failed (or the process died in it): memory untouched, store changed at free addresses only
+              have f := tA.frame
+              refine ⟨⟨by rw [f.pods, f.nextUid]; exact h.podsWF, by rw [f.pods]; exact h.uidUniq,
+                by rw [f.nextUid]; exact h.uidPos, by rw [f.pods]; exact h.podsNodup, ?_⟩, fun hcm => ?_,
+                UnassignsWithin.of_plog_eq _ sp.plog⟩
+              · intro q hq hd hm
+                rw [f.pods] at hq
+                obtain ⟨r, g1, g2, g3⟩ := h.safe.own q hq hd hm
+                exact ⟨r, by rw [sp.persist hd.ip r g1, h.coh.agree]; exact g1, g2, g3,
+                  by rw [f.pools]; exact h.coh.allocConf _ r g1⟩
+              · exact h.step_of_touched (sp.coherent (Or.inl hcm)) tA huid
             · rename_i hok
+              have hcA := sp.coherent (Or.inr hok)
               have bl := bindLoop_spec (keyOf pod) node { policy := policyOf pod, node := node, uid := pod.uid }
                 (infos.filterMap id) ((bindAlloc s pod node { policy := policyOf pod, node := node, uid := pod.uid } infos
-                  ch.pick).2.2.filterMap id) _ sp.coherent
+                  ch.pick).2.2.filterMap id) _ hcA
               have tB : Touched (keyOf pod) pod.uid (bindAlloc s pod node
                   { policy := policyOf pod, node := node, uid := pod.uid } infos ch.pick).1 _ :=
                 bl.2.1.touched (fun o ho => Or.inr ho) (fun n hn => hn)
@@ -476,12 +524,22 @@ theorem bind_spec (s : State) (ns name : String) (uid : Nat) (node : String) (ch
                   intro ip hip
                   rcases sp.ips hok ip hip with hf | hnew
                   · exact bindLoop_found (keyOf pod) node { policy := policyOf pod, node := node, uid := pod.uid }
-                      (infos.filterMap id) _ _ sp.coherent hlok ip hip hf
+                      (infos.filterMap id) _ _ hcA hlok ip hip hf
                   · exact chg_stable bl.2.1 ip hnew
                 have f := tAB.frame
-                have cm := bindCommit_spec _ pod ns name uid node _ hiB (by rw [f.vPods]; exact hl) huid0 hluid hown
-                exact ⟨cm.1, lgB.trans (UnassignsWithin.of_plog_eq _ cm.2)⟩
-              · exact ⟨hiB, lgB⟩
+                rcases bindCommitX_cases (bindLoop (bindAlloc s pod node
+                      { policy := policyOf pod, node := node, uid := pod.uid } infos ch.pick).1 (keyOf pod) node
+                      { policy := policyOf pod, node := node, uid := pod.uid } (infos.filterMap id)
+                      ((bindAlloc s pod node { policy := policyOf pod, node := node, uid := pod.uid } infos
+                        ch.pick).2.2.filterMap id)).1 pod ns name uid node
+                    ((bindAlloc s pod node { policy := policyOf pod, node := node, uid := pod.uid } infos
+                      ch.pick).2.2.filterMap id) with e | e
+                · rw [e]
+                  exact ofInv _ (hiB.quiet (api_quiet _)) (lgB.trans (UnassignsWithin.of_plog_eq _ rfl))
+                · rw [e]
+                  have cm := bindCommit_spec _ pod ns name uid node _ hiB (by rw [f.vPods]; exact hl) huid0 hluid hown
+                  exact ofInv _ cm.1 (lgB.trans (UnassignsWithin.of_plog_eq _ cm.2))
+              · exact ofInv _ hiB lgB
 
 theorem assumed_bind {s : State} {ns name : String} {uid : Nat} {node : String} {ch : Choice} {f pf : Nat}
     (ha : assumed s (.bind ns name uid node ch f pf) = true) : uid ≠ 0 := by
@@ -490,6 +548,6 @@ theorem assumed_bind {s : State} {ns name : String} {uid : Nat} {node : String} 
 theorem inv_bind (s : State) (ns name : String) (uid : Nat) (node : String) (ch : Choice) (f pf : Nat) (h : Inv s)
     (ha : assumed s (.bind ns name uid node ch f pf) = true) :
     Inv (step Facts.good s (.bind ns name uid node ch f pf)).1 :=
-  (bind_spec (withFaults s f pf) ns name uid node ch (inv_withFaults s f pf h) (assumed_bind ha)).1
+  (bind_spec (withFaults s f pf) ns name uid node ch (inv_withFaults s f pf h) (assumed_bind ha)).2.1 rfl
 
 end Galaxy.Plugin
